@@ -53,6 +53,207 @@ def rule_return_self_and_components(repo, rep):
   rep.floor('fit exits analysed', n, 17)
 
 
+# ---------------------------------------------------------------- DTYPE
+import ast as _ast
+from ..tags import EMPTY as _EMPTY
+from ..model import canon as _canon
+from ..engine import V as _V, NOCONST as _NOCONST
+
+COMPLEX_SOURCES = set(_canon(x) for x in (
+    'numpy.linalg.eig', 'numpy.linalg.eigvals', 'scipy.linalg.eig',
+    'scipy.linalg.eigvals', 'scipy.linalg.sqrtm', 'scipy.linalg.logm',
+    'numpy.roots', 'scipy.linalg.schur', 'scipy.linalg.funm',
+    'numpy.emath.sqrt', 'numpy.emath.log', 'numpy.fft.fft'))
+REAL_SANITIZERS = set(_canon(x) for x in (
+    'numpy.real', 'numpy.abs', 'numpy.absolute', 'builtins.abs',
+    'builtins.float', 'numpy.real_if_close', 'numpy.linalg.norm',
+    'numpy.isfinite', 'numpy.isnan', 'numpy.argsort', 'builtins.len'))
+# (function key, callee): frozen, with the reason
+COMPLEX_EXEMPT = {
+    ('lfda._eigh', _canon('scipy.linalg.eig')):
+        'last-resort solver, reached only when the generalised eigenproblem '
+        'is not definite: outside C03\'s full-rank quantifier',
+}
+
+
+class DtypeDomain(TagDomain):
+  def __init__(self):
+    super().__init__()
+    self.sinks = []
+
+  def flow(self, tags):
+    return frozenset(t for t in tags if t[0] == 'cplx')
+
+  def attr(self, v, name, node, st):
+    if name in ('real', 'imag', 'shape', 'ndim', 'size'):
+      return _EMPTY
+    return super().attr(v, name, node, st)
+
+  def compare(self, ops, vals, node, st):
+    return _EMPTY
+
+  def ext_call(self, dotted, args, kwargs, node, st, eng):
+    if dotted in COMPLEX_SOURCES:
+      f = self.cur()
+      if (f.key, dotted) in COMPLEX_EXEMPT:
+        return _EMPTY
+      return frozenset([('cplx', dotted, self.site(node))])
+    if dotted in REAL_SANITIZERS:
+      return _EMPTY
+    return super().ext_call(dotted, args, kwargs, node, st, eng)
+
+  def method_call(self, recv, name, args, kwargs, node, st, eng):
+    if name == 'astype' and args:
+      a = args[0]
+      if (a.fn and a.fn[0] == 'ext' and a.fn[1] in ('builtins.float',
+                                                    'numpy.float64')) or \
+              a.const() in ('float', 'float64', 'f8'):
+        return _EMPTY
+    return super().method_call(recv, name, args, kwargs, node, st, eng)
+
+  def on_store_attr(self, objv, attr, val, node, st):
+    super().on_store_attr(objv, attr, val, node, st)
+    if objv.obj is not None and objv.obj.oid == 'self' and \
+            attr == 'components_':
+      tags = [t for t in self._u(val) if t[0] == 'cplx']
+      self.sinks.append((tags, self.site(node)))
+
+
+def rule_real_components(repo, rep):
+  R = 'DTYPE:components-real'
+  rep.rule(R, 'no value produced by a library routine that returns complex '
+           'arrays for real input in the installed versions (numpy.linalg.eig '
+           '/ eigvals, scipy.linalg.eig / sqrtm / logm ...) reaches '
+           'self.components_ without .real / np.real / abs / astype(float)')
+  n = 0
+  for c in repo.estimators():
+    f = repo.resolve_method(c, 'fit')
+    dom = DtypeDomain()
+    Engine(repo, dom, self_cls=c).run(f)
+    key = c.name + '.fit'
+    bad = [(t, s) for (t, s) in dom.sinks if t]
+    n += len(dom.sinks)
+    if bad:
+      t = bad[0][0][0]
+      rep.refuted(R, key + ':' + t[1], bad[0][1], 'components_ is computed '
+                  'from the complex-typed result of %s (%s)' % (t[1], t[2]))
+    elif dom.sinks:
+      rep.derived(R, key, site(f))
+    else:
+      rep.unknown(R, key, site(f), 'no assignment to components_ observed')
+  rep.notes['dtype_frozen_exemptions'] = [
+      '%s -> %s: %s' % (k[0], k[1], v) for k, v in COMPLEX_EXEMPT.items()]
+  rep.floor('components_ sinks analysed for dtype', n, 17)
+
+
+# ------------------------------------------------------------ DEFASSIGN
+DEFASSIGN_EXEMPT = {
+    ('sdml._BaseSDML._fit', 'M'):
+        'M is bound whenever raised_error is None; the other paths raise '
+        'RuntimeError before the use',
+    ('scml._BaseSCML._fit', 'best_w'):
+        'bound once an objective < inf has been evaluated '
+        '(max_iter >= output_iter >= 1 in the property\'s quantifier)',
+    ('mmc._BaseMMC._fit_diag', 'w_previous'):
+        'the inner while runs at least once: obj_previous = inf and '
+        'assert_all_finite(obj) precede it',
+    ('scml._BaseSCML._initialize_basis', 'basis'):
+        "only called when _initialize_basis_supervised returned None, i.e. "
+        "self.basis != 'lda'",
+    ('scml._BaseSCML._initialize_basis', 'n_basis'):
+        "only called when _initialize_basis_supervised returned None, i.e. "
+        "self.basis != 'lda'",
+}
+
+
+class DefDomain(TagDomain):
+  # path-sensitive (fork at `if`, join only at loop heads / beyond the cap):
+  # correlated literal tests must not produce unbound-variable reports
+  fork = True
+  max_states = 32
+
+  def __init__(self, hypers):
+    super().__init__()
+    self.hypers = hypers
+    self.problems = []
+
+  def event(self, st, ev):
+    pass          # no event bookkeeping: identical states can be merged
+
+  def loop_may_skip(self, node, itv, st):
+    # loops over range(<hyper-parameter>): max_iter >= 1 in the quantifier
+    if isinstance(node, _ast.For):
+      for n in _ast.walk(node.iter):
+        if isinstance(n, _ast.Attribute) and isinstance(n.value, _ast.Name) \
+                and n.value.id == 'self' and n.attr in self.hypers:
+          return False
+    return True
+
+  def _facts(self, st):
+    b = st.vars.get(('self', 'basis'))
+    return {'self.basis': b.c if isinstance(b, _V) else None}
+
+  def maybe_unbound_read(self, name, node, st):
+    self.problems.append(('unbound', name, self.site(node), self.cur(),
+                          self._facts(st)))
+
+  def unbound_name(self, name, node, st):
+    self.problems.append(('unbound', name, self.site(node), self.cur(),
+                          self._facts(st)))
+    return _EMPTY
+
+  def array_str_compare(self, key, const, node, st):
+    self.problems.append(('arraystr', '%s == %r' % (key, const),
+                          self.site(node), self.cur(), {}))
+
+
+def rule_defassign(repo, rep):
+  R = 'R-DEFASSIGN:option-paths-executable'
+  rep.rule(R, 'on every feasible path through fit (path conditions: literal '
+           'option tests, isinstance tests, loops over range(<hyper-parameter '
+           '>= 1>)) no local is read while unbound, and no value known to be '
+           'an ndarray is used in the truth test of a comparison with a '
+           'string literal')
+  n = 0
+  for c in repo.estimators():
+    f = repo.resolve_method(c, 'fit')
+    dom = DefDomain(set(repo.init_params(c)))
+    Engine(repo, dom, self_cls=c).run(f)
+    n += 1
+    key = c.name + '.fit'
+    seen = set()
+    exempt_used = set()
+    for (kind, name, s, fn, facts) in dom.problems:
+      fk = fn.key if fn else ''
+      if kind == 'unbound' and (fk, name) in DEFASSIGN_EXEMPT:
+        # the scml exemption holds only on the path where basis == 'lda'
+        if fk != 'scml._BaseSCML._initialize_basis' or \
+                facts.get('self.basis') == frozenset(['lda']):
+          exempt_used.add((fk, name))
+          continue
+      k = (kind, name, fk)
+      if k in seen:
+        continue
+      seen.add(k)
+      if kind == 'unbound':
+        rep.refuted(R, '%s:%s@%s' % (key, name, fk), s,
+                    'local %r may be read while unbound on an option path'
+                    % name)
+      else:
+        rep.refuted(R, '%s:%s@%s' % (key, name, fk), s,
+                    'an ndarray is compared with a string in a truth test '
+                    '(%s)' % name)
+    if not seen:
+      rep.derived(R, key, site(f))
+  rep.notes['defassign_frozen_exemptions'] = [
+      '%s:%s: %s' % (k[0], k[1], v) for k, v in DEFASSIGN_EXEMPT.items()]
+  rep.floor('fit entry points analysed for definite assignment', n, 17)
+
+
 def check(repo, rep, tier):
   api.run_rule(repo, rep)
   rule_return_self_and_components(repo, rep)
+  rule_real_components(repo, rep)
+  rule_defassign(repo, rep)
+
+
